@@ -1,6 +1,7 @@
 import Bluebell.Convert
 import Bluebell.Lemmas.AknWF
 import Bluebell.Lemmas.FlatDoc
+import Bluebell.Lemmas.NestedDoc
 /-!
 # C01 — conversion is total
 
@@ -126,5 +127,40 @@ example : AtLines "the first line\n2. second (line), with punctuation\nlast one\
   refine ⟨⟨'2', ". second (line), with punctuation".toList, rfl, hs _ (by decide)⟩, by simp [AtPlain, isPlain, clsMatch, overrideNeg, overrideCls], ?_⟩
   refine ⟨⟨'l', "ast one".toList, rfl, hs _ (by decide)⟩, by simp [AtPlain, isPlain, clsMatch, overrideNeg, overrideCls], ?_⟩
   simp [AtLines]
+
+/-! ## …and with arbitrary well-nested indentation
+
+`Blk` is the block structure of pre-parsed text: a plain line (followed by its newline and any number of
+blank lines), or an INDENT line, a non-empty list of blocks and a DEDENT line — to any depth.
+`AtBlks inp 0 bs inp.size`: the whole text reads as the list of blocks `bs`.  Every such text is accepted
+in full by the five structured roots: nested blocks go through `hier_block_indent` at the top level and
+through `nested_block_element` below it (mutual induction over the block structure). -/
+theorem C01_nested_plain_text_accepted (inp : Array Char) (root : String)
+    (hroot : root ∈ ["doc", "statement", "debateReport", "act", "bill"])
+    (bs : List Blk) (h : AtBlks inp 0 bs inp.size) :
+    (∃ n, (eval aknExec inp n (.ref root) 0).done) ∧
+    ∀ n, (eval aknExec inp n (.ref root) 0).done → ∃ t, eval aknExec inp n (.ref root) 0 = .ok t ∧ t.stop = inp.size := by
+  refine ⟨?_, fun n hd => nested_doc_never_refused root hroot bs h n hd⟩
+  obtain ⟨t, ⟨n0, h0⟩, _⟩ := nested_doc_accepted (inp := inp) root hroot bs h
+  exact ⟨n0, by rw [h0 n0 (Nat.le_refl _)]; trivial⟩
+
+/-- non-vacuity: `a`, then an indented block holding `b`, a blank line, a doubly indented `c`, then `d` -/
+example : AtBlks "a\n\x0e\nb\n\n\x0e\nc\n\x0f\n\x0f\nd\n".toList.toArray 0
+    [.line ['a'], .nest [.line ['b'], .nest [.line ['c']]], .line ['d']] 17 := by
+  have hs := C01_plain_starts
+  simp only [List.all_eq_true] at hs
+  have pl : ∀ (inp : Array Char) (p : Nat) (c : Char), inp[p]? = some c → inp[p + 1]? = some '\n' → isPlain c = true →
+      AtPlain inp p [c] := fun inp p c h0 h1 hp => ⟨h0, hp, h1⟩
+  have ip : ∀ c, plainStart c = true → isPlain c = true := fun c h => (plainStart_parts h).2.1
+  have ha := hs 'a' (by decide)
+  have hb := hs 'b' (by decide)
+  have hc := hs 'c' (by decide)
+  have hd := hs 'd' (by decide)
+  refine ⟨2, ⟨⟨'a', [], rfl, ha⟩, pl _ 0 'a' (by decide) (by decide) (ip _ ha), 0, ⟨by decide, by simp [NlRun]⟩, rfl⟩, 15, ?_, 17, ?_, rfl⟩
+  · refine ⟨by decide, by decide, by decide, by simp, 13, ?_, by decide, by decide, rfl, by decide⟩
+    refine ⟨7, ⟨⟨'b', [], rfl, hb⟩, pl _ 4 'b' (by decide) (by decide) (ip _ hb), 1, ⟨by decide, by decide, by simp [NlRun]⟩, rfl⟩, 13, ?_, rfl⟩
+    refine ⟨by decide, by decide, by decide, by simp, 11, ?_, by decide, by decide, rfl, by decide⟩
+    exact ⟨11, ⟨⟨'c', [], rfl, hc⟩, pl _ 9 'c' (by decide) (by decide) (ip _ hc), 0, ⟨by decide, by simp [NlRun]⟩, rfl⟩, rfl⟩
+  · exact ⟨⟨'d', [], rfl, hd⟩, pl _ 15 'd' (by decide) (by decide) (ip _ hd), 0, ⟨by decide, by simp [NlRun]⟩, rfl⟩
 
 end Bluebell
